@@ -199,20 +199,52 @@ Definition declared (it : item) : list string :=
        | Some x => if String.eqb x "" then ostr' cn else x
        | None => ostr' cn
        end]
+  | IMod mn _ nsitem bn _ =>
+      let own := match nsitem with
+                 | ISub (Some cn) _ _ _ _ _ => if String.eqb cn "" then mn else cn
+                 | _ => mn
+                 end in
+      [match bn with
+       | Some x => if String.eqb x "" then own else x
+       | None => own
+       end]
   end.
 
+(** (a module whose explicit namespace is empty is ignored by from_module in
+    favour of the module's top-level tasks: outside the statement) *)
 Fixpoint script_clean (it : item) : bool :=
   match it with
   | ITask _ _ _ _ => true
+  | IMod _ _ nsitem _ _ =>
+      match nsitem with
+      | ISub _ _ _ (_ :: _) _ _ => script_clean nsitem
+      | _ => false
+      end
   | ISub _ _ _ items _ _ =>
       nodupb (map loose (flat_map declared items)) &&
       (fix go (l : list item) : bool :=
          match l with [] => true | i :: l' => script_clean i && go l' end) items
   end.
 
+(** Normalisation is applied consistently to defaults and aliases: in every
+    collection of the built tree the default (if any) is one of the names
+    bound there, and every alias points at a bound task name. *)
+Fixpoint defaults_consistent (c : coll) : bool :=
+  match c with
+  | Coll _ tasks aliases subs dflt _ _ =>
+      match dflt with
+      | Some d => mem d (akeys tasks) || mem d (akeys aliases) || mem d (akeys subs)
+      | None => true
+      end &&
+      forallb (fun a => mem (snd a) (akeys tasks)) aliases &&
+      (fix go (l : list (string * coll)) : bool :=
+         match l with [] => true | (_, sc) :: l' => defaults_consistent sc && go l' end) subs
+  end.
+
 Definition spec_ok (script : item) (c : coll) (view : nat) (names : list string) (nos : list nobs)
            (rows : result (list row)) : bool :=
-  if ns_wf c && script_clean script then
+  if script_clean script then
+    defaults_consistent c &&
     match view with
     | O => all2 (name_ok (c_auto_dash c)) names nos
     | _ => listing_ok c view rows
